@@ -41,6 +41,8 @@ def run(ctx, rep):
     c04.phase(d, rep, 'C18.3')
     from . import c02
     c02.drop_rule(ctx.lib, rep, 'C18.4', 'unused')
+    # a dirty entry dropped silently: the next flush finds nothing, lowers the flag and the file never receives the update
+    c02.drop_rule(ctx.lib, rep, 'C18.5')
     # error returns are only reachable with backend faults: the same rule on the fault-injected closure
     fd = c04.closure_cached(ctx.lib, faults=True)
     for (rule, site), (ok, detail) in sorted(fd.obl.items()):
